@@ -10,7 +10,7 @@ use std::time::Instant;
 pub fn cases(ctx: &Ctx) -> Vec<WCase> {
     let mut out = vec![];
     let mut r = Rng::new(ctx.seed ^ 0xC17);
-    for i in 0..ctx.n(700, 30_000) {
+    for i in 0..ctx.n(2500, 100_000) {
         let mut rr = r.fork(i as u64);
         let mut s = gen_c01_space(&mut rr, 300);
         // at least three hash-iterated collections with >= 2 entries each
@@ -34,7 +34,7 @@ pub fn cases(ctx: &Ctx) -> Vec<WCase> {
         }
         out.push(wcase(format!("mesh-{i}"), s));
     }
-    for i in 0..ctx.n(200, 8000) {
+    for i in 0..ctx.n(800, 30_000) {
         let mut rr = r.fork(0x2000_0000 + i as u64);
         let mut s = gen_death2(&mut rr, 300);
         s.peers = vec![vec![0, 2], vec![1, 3]];
